@@ -639,6 +639,21 @@ class VM:
                         st.env[tgt] = Unknown(prov=(tv.roots() if tv else frozenset()), pykind="list", why="loop-built")
                         continue
                     raise Unrecognised(f"line {n.lineno}: call `{src(c)}` inside a summarised loop")
+                if isinstance(n, ast.Expr) and isinstance(n.value, ast.Call) and isinstance(n.value.func, ast.Attribute) and isinstance(n.value.func.value, ast.Attribute) and n.value.func.attr in ("append", "add") and len(n.value.args) == 1 and not n.value.keywords:
+                    # `<node>.<field>.append(<loop element>)` once per element == one extend of that field with the
+                    # slice-derived elements, in loop order
+                    c = n.value
+                    argnames = {x.id for x in ast.walk(c.args[0]) if isinstance(x, ast.Name)}
+                    if argnames and argnames <= set(names) and isinstance(c.args[0], ast.Name):
+                        res = list(self._ev(c.func.value, st, frame))
+                        if len(res) == 1:
+                            _, rv = res[0]
+                            root, path = self._root_of(rv)
+                            if isinstance(root, (Item, Fresh, Unknown, SliceV)) and path:
+                                part = "some" if (conditional or len(names) > 1) else "all"
+                                st.mutations.append(Mutation(root, path, "extend", SliceV(order, part, "list"), n.lineno))
+                                continue
+                    raise Unrecognised(f"line {n.lineno}: call `{src(c)}` inside a summarised loop")
                 if isinstance(n, (ast.Assign, ast.AugAssign, ast.AnnAssign)):
                     tgts = n.targets if isinstance(n, ast.Assign) else [n.target]
                     for t in tgts:
